@@ -152,11 +152,16 @@ func (s *srvSim) check() {
 				return
 			}
 		}
-		if s.sp.Sync && !s.settling && v.caughtUp != 0 && h+2 < s.top() {
-			// fault-free configuration: a node that has caught up stays in lockstep (a block reaches it within a fraction
-			// of a block time: three hops of at most MaxDelayMS each)
-			r.violate(sim.Violatef("liveness", "liveness/lockstep/"+srvKindNames[v.kind], "fault-free configuration (delays <= %d ms): %s, caught up since %d ms, is at height %d while the top is %d at %d ms", s.sp.MaxDelayMS, v.name(), v.caughtUp/time.Millisecond, h, s.top(), s.ms()))
+		if s.sp.Sync && !s.settling && v.inStep != 0 && h+2 < s.top() {
+			// fault-free configuration: a node that has reached the top stays in lockstep (a block reaches it within a
+			// fraction of a block time: three hops of at most MaxDelayMS each). "Reached the top", not "within two blocks
+			// of it": a node that is still a block or two behind gets the rest with its next block request (protocol
+			// tick or ping), new blocks relayed meanwhile wait in its queue
+			r.violate(sim.Violatef("liveness", "liveness/lockstep/"+srvKindNames[v.kind], "fault-free configuration (delays <= %d ms): %s, at the top since %d ms, is at height %d while the top is %d at %d ms", s.sp.MaxDelayMS, v.name(), v.inStep/time.Millisecond, h, s.top(), s.ms()))
 			return
+		}
+		if v.inStep == 0 && h >= s.top() && h > 0 {
+			v.inStep = s.now()
 		}
 		if v.caughtUp == 0 && h+2 >= s.top() && h > 0 {
 			v.caughtUp = s.now()
@@ -293,7 +298,8 @@ func (s *srvSim) finalSrv() {
 				}
 			}
 			if !v.fromStart || v.restarts > 0 {
-				bound := sn.started + srvJoinBoundMS*time.Millisecond
+				// (a node that starts far behind gets one more block time for every four blocks of its gap beyond 20)
+				bound := sn.started + srvJoinBoundMS*time.Millisecond + time.Duration(max(0, v.gapAtStart-20)/4)*blockTimeMS*time.Millisecond
 				if bound <= endAt && (sn.caught == 0 || sn.caught > bound) {
 					r.violate(sim.Violatef("liveness", "liveness/"+srvKindNames[v.kind], "fault-free configuration (delays <= %d ms): %s started at %d ms is at height %d at %d ms (top %d), first within 2 blocks of the top at %d ms (0 = never); bound %d block times",
 						sp.MaxDelayMS, v.name(), sn.started/time.Millisecond, sn.h, endAt/time.Millisecond, topEnd, sn.caught/time.Millisecond, srvJoinBoundMS/blockTimeMS))
@@ -317,6 +323,9 @@ func (s *srvSim) finalSrv() {
 			} else {
 				r.out.Probes["pending_tx_included"]++
 			}
+		}
+		if !s.checkRivals(endAt) {
+			return
 		}
 	}
 	for _, v := range s.nodes {
